@@ -4,6 +4,7 @@ import (
 	"fmt"
 	"go/token"
 	"go/types"
+	"os"
 	"strings"
 
 	"golang.org/x/tools/go/ssa"
@@ -17,7 +18,15 @@ func (e *Engine) exec(c *Config, f *Frame, ins ssa.Instruction, rest func(c *Con
 	case *ssa.Alloc:
 		// every dynamic allocation has its own name (site + iteration vector), so the object is zero
 		// when first reached on any path
-		cell := e.allocCell(c, x.Type().(*types.Pointer).Elem(), "alloc")
+		var cell *Cell
+		if !x.Heap {
+			// a non-escaping local dies with its activation / loop iteration: the same object is reused
+			// (re-zeroed under the path guard) and does not count as a naming event for loop epochs
+			cell = e.allocLocal(c, x.Type().(*types.Pointer).Elem())
+			storeCell(cell, zeroValue(cell.T), c.g)
+		} else {
+			cell = e.allocCell(c, x.Type().(*types.Pointer).Elem(), "alloc")
+		}
 		f.regs[x] = refTo(cell)
 		f.idx++
 	case *ssa.Store:
@@ -173,6 +182,9 @@ func (e *Engine) exec(c *Config, f *Frame, ins ssa.Instruction, rest func(c *Con
 		}
 		if cond.IsFalse() {
 			return e.jumpYield(c, f, f.blk.Succs[1])
+		}
+		if os.Getenv("VERIF_DEBUGIF") != "" && strings.Contains(f.fn.Name(), os.Getenv("VERIF_DEBUGIF")) {
+			fmt.Fprintf(os.Stderr, "IF step=%d g%d %s b%d loops=%v: %s\n", e.step, c.gor.idx, f.fn.Name(), f.blk.Index, f.loops, cond.String())
 		}
 		ct, cf := e.split(c, cond)
 		if ct != nil {
@@ -402,7 +414,15 @@ func (e *Engine) unop(c *Config, f *Frame, x *ssa.UnOp) Value {
 		if r == nil {
 			return zeroValue(x.Type())
 		}
-		return resolveDeep(r, c.g)
+		r = resolveDeep(r, c.g)
+		// restrict the loaded value to the current path: ite(g', a, b) with g' decided by the guard
+		switch rv := r.(type) {
+		case *Term:
+			return restrictTerm(rv, c.g)
+		case *RefV:
+			return pruneRefUnder(rv, c.g)
+		}
+		return r
 	case token.NOT:
 		return Not(v.(*Term))
 	case token.SUB:
@@ -912,8 +932,23 @@ func (e *Engine) mapNext(c *Config, f *Frame, x *ssa.Next) Value {
 	return &StructV{F: []Value{ok, k, v}}
 }
 
-// upperBound derives a syntactic upper bound (unsigned) for small count-like terms.
+// upperBound derives a syntactic upper bound (unsigned) for small count-like terms (memoised: terms are DAGs).
+var ubMemo = map[int][2]int{}
+
 func upperBound(t *Term) (int, bool) {
+	if v, ok := ubMemo[t.id]; ok {
+		return v[0], v[1] == 1
+	}
+	r, ok := upperBound1(t)
+	o := 0
+	if ok {
+		o = 1
+	}
+	ubMemo[t.id] = [2]int{r, o}
+	return r, ok
+}
+
+func upperBound1(t *Term) (int, bool) {
 	switch t.op {
 	case OpConst:
 		if t.val > 1<<20 {
